@@ -585,12 +585,26 @@ func c09Metadata(r *core.Run, idx int, rng *rand.Rand) {
 		for k := 0; k < 200; k++ {
 			try(mutateBytes(rng, x), "bytes")
 		}
+		// the same document under every kind of declared encoding: implemented, registered but exotic, unknown, empty
+		for _, enc := range declaredEncodings {
+			body := strings.TrimSpace(strings.TrimPrefix(strings.TrimSpace(string(x)), `<?xml version="1.0" encoding="UTF-8"?>`))
+			try([]byte(`<?xml version="1.0" encoding="`+enc+`"?>`+"\n"+body), "declared_encoding")
+			try([]byte(`<?xml version='1.1' encoding='`+enc+`' standalone='yes'?>`+body), "declared_encoding")
+		}
+		r.Count("metadata_with_declared_encoding", int64(2*len(declaredEncodings)))
 		for _, s := range []string{"", "<", "<?xml version=\"1.0\"?>", "<EntityDescriptor/>", "<EntitiesDescriptor xmlns=\"" + spsim.NSMD + "\"/>", "<md:EntityDescriptor xmlns:md=\"" + spsim.NSMD + "\"><md:IDPSSODescriptor/></md:EntityDescriptor>", "\xff\xfe<\x00"} {
 			try([]byte(s), "shape")
 		}
 		r.Eval(fmt.Sprintf("metadata_bytes|%d", idx))
 	}
 }
+
+// declaredEncodings are names an XML declaration may carry (IANA character-set names and aliases, and a few that
+// are none).
+var declaredEncodings = []string{"UTF-8", "utf-8", "utf8", "UTF-16", "UTF-16LE", "UTF-16BE", "UTF-32", "UTF-32BE", "UTF-32LE", "UTF-7", "CESU-8", "US-ASCII", "ASCII",
+	"ISO-8859-1", "latin1", "ISO-8859-15", "windows-1252", "cp1252", "windows-1251", "KOI8-R", "macintosh", "IBM437", "IBM037", "EBCDIC-US", "EBCDIC-CP-US",
+	"Shift_JIS", "EUC-JP", "ISO-2022-JP", "ISO-2022-KR", "ISO-2022-CN", "EUC-KR", "GBK", "GB2312", "GB18030", "Big5", "Big5-HKSCS", "HZ-GB-2312",
+	"ISO-10646-UCS-2", "ISO-10646-UCS-4", "UCS-2", "UNICODE-1-1-UTF-7", "SCSU", "BOCU-1", "TIS-620", "VISCII", "x-user-defined", "x-unknown", "none", "", " ", "binary", "utf-8 ", "UTF\u20138"}
 
 // ---------- requests after a storage fault, tiny payloads ----------
 
